@@ -11,12 +11,17 @@
 //   ordsorth <asc> <ops>     same through HArray<String<char>, SizeT64> directly
 //   ordloop <asc> <vals>     Template: <loop value="v" sort="...">{var:v},</loop> on an array of strings/naturals
 //                            -> rendered units
+//   ordsortseg[64] <asc> <start> <end> <vals>  Memory::Sort<asc>(storage, start, end) directly (index type SizeT / SizeT64)
+//   ordsortw <asc> <w> <strs>  Array<StringView<w>>::Sort, all views into one shared buffer
+//   ordsortn <asc> <n|i|r> <nums>  Array<SizeT64 | SizeT64I | double>::Sort (built-in comparisons)
+//   ordsortl <asc> <ops>     HList<String<char>> (keys only), same output as ordsorth with values 0
 //   orddeep <n> <reversed> <asc>  Array<SizeT>::Sort on sorted/reversed input of n elements -> ok (implementation only)
 // string token: units joined by '.', the empty string is "e".  value token: u | o<n>[x<tag>] | a<n>[x<tag>] |
 // s:<str> | n<nat> | i<int> | r<16 hex> | t | f | z | p<token>.  lists joined by ',', the empty list is "-".
 #include "common.hpp"
 #include "Array.hpp"
 #include "HArray.hpp"
+#include "HList.hpp"
 #include "String.hpp"
 #include "StringStream.hpp"
 #include "StringUtils.hpp"
@@ -95,9 +100,45 @@ static std::string doStr(const std::vector<uint64_t> &a, const std::vector<uint6
                                         StringUtils::IsLess(cp(one), cp(one), SizeT(ba.n), SizeT(bb.n), true),
                                         StringUtils::IsGreater(cp(one), cp(one), SizeT(ba.n), SizeT(bb.n), false),
                                         StringUtils::IsGreater(cp(one), cp(one), SizeT(ba.n), SizeT(bb.n), true)});
-        if (V2 != S || R2 != R) return V2 + " " + R2;
+        if (V2 != S || R2 != R)
+            return V2 + " " + R2 + (StringUtils::IsEqual(cp(ba), cp(bb), SizeT(ba.n < bb.n ? ba.n : bb.n)) ? "1" : "0");
     }
-    return S + " " + R;
+    // --- remaining public forms (notes/design-order.md, API table); each must give the answer of `S`
+    const bool eq = (S[4] == '1');
+    {   // member IsEqual(ptr, length) of String / StringView / StringStream; StringStream == / != in its four forms
+        StringStream<Char_T> ta, tb;
+        ta.Write(cp(ba), SizeT(ba.n));
+        tb.Write(cp(bb), SizeT(bb.n));
+        const std::string Q = bits({sa.IsEqual(cp(bb), SizeT(bb.n)), va.IsEqual(cp(bb), SizeT(bb.n)), ta.IsEqual(cp(bb), SizeT(bb.n)),
+                                    ta == tb, !(ta != tb), ta == sb, !(ta != sb), ta == vb, !(ta != vb)});
+        if (Q != std::string(9, eq ? '1' : '0')) return "equality-form-differs eq=" + S.substr(4, 1) + " forms=" + Q;
+        if (!has_nul) {
+            std::vector<uint64_t> bz(b);
+            bz.push_back(0);
+            vh::ExactBuf<Char_T> bn(bz);
+            if ((ta == cp(bn)) != eq || (ta != cp(bn)) == eq) return "equality-form-differs stream-cstr";
+        }
+    }
+    {   // operands that are the same object / the same storage
+        if (eq) {
+            const std::string SS = bits({sa < sa, sa <= sa, sa > sa, sa >= sa, sa == sa, sa != sa});
+            const std::string VV = bits({va < va, va <= va, va > va, va >= va, va == va, va != va});
+            if (SS != S || VV != S) return "self-alias-differs String=" + SS + " StringView=" + VV;
+        }
+        // both operands adjacent in ONE buffer, in both placements (no read across the boundary may matter)
+        std::vector<uint64_t> ab(a), ba2(b);
+        ab.insert(ab.end(), b.begin(), b.end());
+        ba2.insert(ba2.end(), a.begin(), a.end());
+        vh::ExactBuf<Char_T> j1(ab), j2(ba2);
+        StringView<Char_T>   ya(cp(j1), SizeT(a.size())), yb(cp(j1) + a.size(), SizeT(b.size()));
+        StringView<Char_T>   zb(cp(j2), SizeT(b.size())), za(cp(j2) + b.size(), SizeT(a.size()));
+        const std::string    Y = bits({ya < yb, ya <= yb, ya > yb, ya >= yb, ya == yb, ya != yb});
+        const std::string    Z = bits({za < zb, za <= zb, za > zb, za >= zb, za == zb, za != zb});
+        if (Y != S || Z != S) return "adjacent-alias-differs ab=" + Y + " ba=" + Z;
+    }
+    // raw IsEqual over the common length (a public pointer+length form on its own)
+    const SizeT mn = SizeT(ba.n < bb.n ? ba.n : bb.n);
+    return S + " " + R + (StringUtils::IsEqual(cp(ba), cp(bb), mn) ? "1" : "0");
 }
 
 using VChar = char;
@@ -210,11 +251,137 @@ static std::string show_value(const Val &v) {
     return "?";
 }
 
+#define SIX(x, y) bits({(x) < (y), (x) <= (y), (x) > (y), (x) >= (y), (x) == (y), !((x) == (y))})
+
 static std::string doVal(const std::string &ta, const std::string &tb) {
     Pool pool;
     Val  a, b;
     if (!build_value(ta, a, pool) || !build_value(tb, b, pool)) return "bad-op";
-    return bits({a < b, a <= b, a > b, a >= b, a == b, !(a == b)});
+    const std::string D = SIX(a, b);
+    // operands that are elements of one array (the container a Sort permutes) ...
+    Val arr{ValueType::Array};
+    {
+        Val x, y;
+        if (!build_value(ta, x, pool) || !build_value(tb, y, pool)) return "bad-op";
+        arr += Memory::Move(x);
+        arr += Memory::Move(y);
+    }
+    const Val        *e = arr.GetArray()->First();
+    const std::string E = SIX(e[0], e[1]);
+    if (E != D) return "element-operands-differ direct=" + D + " elements=" + E;
+    // ... and pointer values aimed at those elements, on either side and on both
+    Val pa, pb;
+    pa.SetPointerToValue(&e[0]);
+    pb.SetPointerToValue(&e[1]);
+    const std::string P0 = SIX(pa, pb), P1 = SIX(pa, e[1]), P2 = SIX(e[0], pb);
+    if (P0 != D || P1 != D || P2 != D) return "pointer-to-element-differs direct=" + D + " pp=" + P0 + " p-=" + P1 + " -p=" + P2;
+    if (ta == tb) {   // one object on both sides
+        const std::string SS = SIX(a, a), EE = SIX(e[0], e[0]);
+        if (SS != D || EE != D) return "self-alias-differs direct=" + D + " self=" + SS + " element-self=" + EE;
+    }
+    return D;
+}
+
+template <typename Elem>
+static std::string tables(const Elem *p, size_t from, size_t to, bool asc) {
+    std::string table, chain;
+    for (size_t i = from; i < to; i++)
+        for (size_t j = i + 1; j < to; j++) {
+            table += ((asc ? (p[j] < p[i]) : (p[j] > p[i])) ? '1' : '0');
+            chain += ((asc ? (p[i] <= p[j]) : (p[i] >= p[j])) ? '1' : '0');
+        }
+    return (table.empty() ? "-" : table) + " " + (chain.empty() ? "-" : chain);
+}
+
+// Memory::Sort<Ascend_T>(arr, start, end) called directly on a segment, index type Number_T
+template <typename Number_T>
+static std::string doSortSeg(bool asc, unsigned long start, unsigned long end, const std::string &list) {
+    Pool pool;
+    Val  arr{ValueType::Array};
+    if (list != "-") {
+        for (const auto &t : vh::split(list, ',')) {
+            Val v;
+            if (!build_value(t, v, pool)) return "bad-op";
+            arr += Memory::Move(v);
+        }
+    }
+    auto *a = arr.GetArray();
+    if (start > end || end > a->Size()) return "bad-op";
+    if (asc) Memory::Sort<true>(a->Storage(), Number_T(start), Number_T(end));
+    else Memory::Sort<false>(a->Storage(), Number_T(start), Number_T(end));
+    std::string out;
+    for (SizeT i = 0; i < a->Size(); i++) {
+        if (i) out += ',';
+        out += show_value(a->First()[i]);
+    }
+    if (out.empty()) out = "-";
+    return out + " " + tables(a->First(), start, end, asc);
+}
+
+// Array<StringView>: every element is a view into ONE shared buffer
+template <typename Char_T>
+static std::string doSortW(bool asc, const std::string &list) {
+    std::vector<std::vector<uint64_t>> strs;
+    std::vector<uint64_t>              all;
+    if (list != "-") {
+        for (const auto &t : vh::split(list, ',')) {
+            std::vector<uint64_t> u;
+            if (!parse_str(t, u)) return "bad-op";
+            strs.push_back(u);
+            all.insert(all.end(), u.begin(), u.end());
+        }
+    }
+    vh::ExactBuf<Char_T>      buf(all);
+    Array<StringView<Char_T>> arr;
+    size_t                    off = 0;
+    for (auto &u : strs) {
+        arr += StringView<Char_T>(cp(buf) + off, SizeT(u.size()));
+        off += u.size();
+    }
+    arr.Sort(asc);
+    if (arr.Size() == 0) return "- - -";
+    std::string out;
+    for (SizeT i = 0; i < arr.Size(); i++) {
+        if (i) out += ',';
+        out += show_str(arr.First()[i].First(), arr.First()[i].Length());
+    }
+    return out + " " + tables(arr.First(), 0, arr.Size(), asc);
+}
+
+// Array<number>::Sort with the built-in comparisons (tokens n.. / i.. / r..)
+template <typename Num>
+static std::string doSortN(bool asc, char kind, const std::string &list) {
+    Array<Num> arr;
+    if (list != "-") {
+        for (const auto &t : vh::split(list, ',')) {
+            if (t.size() < 2 || t[0] != kind) return "bad-op";
+            if (kind == 'n') arr += Num(strtoull(t.c_str() + 1, nullptr, 10));
+            else if (kind == 'i') arr += Num(strtoll(t.c_str() + 1, nullptr, 10));
+            else {
+                uint64_t b = strtoull(t.c_str() + 1, nullptr, 16);
+                double   d;
+                memcpy(&d, &b, 8);
+                arr += Num(d);
+            }
+        }
+    }
+    arr.Sort(asc);
+    if (arr.Size() == 0) return "- - -";
+    std::string out;
+    char        buf[40];
+    for (SizeT i = 0; i < arr.Size(); i++) {
+        if (i) out += ',';
+        if (kind == 'n') snprintf(buf, sizeof buf, "n%llu", (unsigned long long)arr.First()[i]);
+        else if (kind == 'i') snprintf(buf, sizeof buf, "i%lld", (long long)arr.First()[i]);
+        else {
+            double   d = double(arr.First()[i]);
+            uint64_t b;
+            memcpy(&b, &d, 8);
+            snprintf(buf, sizeof buf, "r%016llx", (unsigned long long)b);
+        }
+        out += buf;
+    }
+    return out + " " + tables(arr.First(), 0, arr.Size(), asc);
 }
 
 static std::string doSortV(bool asc, const std::string &list, bool through_array) {
@@ -388,7 +555,8 @@ static std::string doSortO(bool asc, const std::string &list) {
         const Val          *x = v.GetValue(cp(b), SizeT(b.n));
         SizeT               idx;
         if (x == nullptr || x->Type() != ValueType::UIntLong || x->GetUInt64() != e.second || !o->Has(cp(b), SizeT(b.n)) ||
-            !o->GetKeyIndex(idx, cp(b), SizeT(b.n)) || idx >= o->Size() || !o->First()[idx].Key.IsEqual(cp(b), SizeT(b.n))) {
+            !o->GetKeyIndex(idx, cp(b), SizeT(b.n)) || idx >= o->Size() || !o->First()[idx].Key.IsEqual(cp(b), SizeT(b.n)) ||
+            v.GetKey(idx) == nullptr || !v.GetKey(idx)->IsEqual(cp(b), SizeT(b.n)) || v.GetValue(idx) != x) {
             verdict = "lookup-fail:" + show_str(cp(b), b.n);
             break;
         }
@@ -454,8 +622,18 @@ static std::string doSortH(bool asc, const std::string &list) {
     for (auto &e : live) {
         vh::ExactBuf<VChar> b(e.first);
         const SizeT64      *x = h.GetValue(cp(b), SizeT(b.n));
-        if (x == nullptr || *x != e.second || !h.Has(cp(b), SizeT(b.n))) {
+        SizeT               idx = 0;
+        if (x == nullptr || *x != e.second || !h.Has(cp(b), SizeT(b.n)) || !h.GetKeyIndex(idx, cp(b), SizeT(b.n)) || idx >= h.Size() ||
+            h.GetKey(idx) == nullptr || !h.GetKey(idx)->IsEqual(cp(b), SizeT(b.n)) || h.GetValue(idx) != x ||
+            h.GetItem(VStr(cp(b), SizeT(b.n))) != (h.First() + idx)) {
             verdict = "lookup-fail:" + show_str(cp(b), b.n);
+            break;
+        }
+        const VStr key(cp(b), SizeT(b.n));   // the Key_T overloads, and item == item
+        SizeT      idx2 = 0;
+        if (!h.Has(key) || !h.GetKeyIndex(idx2, key) || idx2 != idx || !(h.First()[idx] == h.First()[idx]) ||
+            (idx + 1 < h.Size() && h.First()[idx + 1].Hash != 0 && (h.First()[idx] == h.First()[idx + 1]))) {
+            verdict = "lookup-fail(Key_T form):" + show_str(cp(b), b.n);
             break;
         }
     }
@@ -468,6 +646,58 @@ static std::string doSortH(bool asc, const std::string &list) {
             }
         }
     }
+    return out + " " + verdict;
+}
+
+// HList<String> path (keys only; values in the ops are ignored and printed as 0)
+static std::string doSortL(bool asc, const std::string &list) {
+    std::vector<KeyOp> ops;
+    if (!parse_ops(list, ops)) return "bad-op";
+    HList<VStr> h;
+    for (auto &op : ops) {
+        op.val = 0;
+        vh::ExactBuf<VChar> b(op.key);
+        if (op.insert) h.Insert(cp(b), SizeT(b.n));
+        else h.Remove(cp(b), SizeT(b.n));
+    }
+    auto slots = [&]() {
+        std::string out;
+        for (SizeT i = 0; i < h.Size(); i++) {
+            if (i) out += ',';
+            const auto *item = h.First() + i;
+            if (item->Hash == 0) out += (item->Key.Length() == 0) ? "~" : "~dirty";
+            else out += show_str(item->Key.First(), item->Key.Length()) + "=0";
+        }
+        if (out.empty()) out = "-";
+        return out;
+    };
+    const std::string before = slots();
+    h.Sort(asc);
+    std::string out = before + " " + slots() + " " + tables(h.First(), 0, h.Size(), asc);
+    std::vector<std::pair<std::vector<uint64_t>, uint64_t>> live;
+    std::vector<std::vector<uint64_t>>                      dead;
+    expected_content(ops, live, dead);
+    std::string verdict = "lookups-ok";
+    for (auto &e : live) {
+        vh::ExactBuf<VChar> b(e.first);
+        SizeT               idx = 0;
+        const VStr         *k;
+        if (!h.Has(cp(b), SizeT(b.n)) || !h.GetKeyIndex(idx, cp(b), SizeT(b.n)) || idx >= h.Size() ||
+            (k = h.GetKey(idx)) == nullptr || !k->IsEqual(cp(b), SizeT(b.n)) || h.GetItem(VStr(cp(b), SizeT(b.n))) != (h.First() + idx) ||
+            !(h.First()[idx] == h.First()[idx]) || (idx + 1 < h.Size() && h.First()[idx + 1].Hash != 0 && (h.First()[idx] == h.First()[idx + 1]))) {
+            verdict = "lookup-fail:" + show_str(cp(b), b.n);
+            break;
+        }
+    }
+    if (verdict == "lookups-ok")
+        for (auto &k : dead) {
+            vh::ExactBuf<VChar> b(k);
+            SizeT               idx;
+            if (h.Has(cp(b), SizeT(b.n)) || h.GetKeyIndex(idx, cp(b), SizeT(b.n))) {
+                verdict = "removed-key-found:" + show_str(cp(b), b.n);
+                break;
+            }
+        }
     return out + " " + verdict;
 }
 
@@ -528,6 +758,21 @@ int main() {
             vh::emit(doSortO(t[1] == "1", t[2]));
         } else if (op == "ordsorth" && t.size() == 3 && (t[1] == "0" || t[1] == "1")) {
             vh::emit(doSortH(t[1] == "1", t[2]));
+        } else if ((op == "ordsortseg" || op == "ordsortseg64") && t.size() == 5 && (t[1] == "0" || t[1] == "1")) {
+            const unsigned long st = strtoul(t[2].c_str(), nullptr, 10), en = strtoul(t[3].c_str(), nullptr, 10);
+            vh::emit(op == "ordsortseg" ? doSortSeg<SizeT>(t[1] == "1", st, en, t[4]) : doSortSeg<SizeT64>(t[1] == "1", st, en, t[4]));
+        } else if (op == "ordsortw" && t.size() == 4 && (t[1] == "0" || t[1] == "1")) {
+            if (t[2] == "1" || t[2] == "1s") vh::emit(doSortW<char>(t[1] == "1", t[3]));
+            else if (t[2] == "2") vh::emit(doSortW<char16_t>(t[1] == "1", t[3]));
+            else if (t[2] == "4") vh::emit(doSortW<char32_t>(t[1] == "1", t[3]));
+            else vh::emit("bad-op");
+        } else if (op == "ordsortn" && t.size() == 4 && (t[1] == "0" || t[1] == "1") && t[2].size() == 1) {
+            if (t[2] == "n") vh::emit(doSortN<SizeT64>(t[1] == "1", 'n', t[3]));
+            else if (t[2] == "i") vh::emit(doSortN<SizeT64I>(t[1] == "1", 'i', t[3]));
+            else if (t[2] == "r") vh::emit(doSortN<double>(t[1] == "1", 'r', t[3]));
+            else vh::emit("bad-op");
+        } else if (op == "ordsortl" && t.size() == 3 && (t[1] == "0" || t[1] == "1")) {
+            vh::emit(doSortL(t[1] == "1", t[2]));
         } else if (op == "orddeep" && t.size() == 4) {
             vh::emit(doDeep(unsigned(strtoul(t[1].c_str(), nullptr, 10)), t[2] == "1", t[3] == "1"));
         } else if (op == "ordloop" && t.size() == 3 && (t[1] == "0" || t[1] == "1")) {
